@@ -72,3 +72,36 @@ Theorem C08_cut_mid_line : forall tb cs c enc A p x,
     (last = [] \/ last = emit tb cs c enc (drop_cr (p ++ x))).
 Proof. exact cut_mid_line. Qed.
 Print Assumptions C08_cut_mid_line.
+
+(* ---------- the whole command: no failure is turned into exit status 0 ---------- *)
+From Model Require Import Cli KeyFile Atlas Job.
+From Proofs Require Import JobProofs.
+
+(* whatever goes wrong inside the stream processor of a local job - a refused or short write, a reader that ends with an
+   error, a line over the limit - the command (Model/Job.v: main.go's Run end to end) exits with status 1 *)
+Theorem C08_job_failure_reported : forall tb cs a w m fs1 fs2 enc data e bar,
+  decide (flags_of a w) = CAccept m -> m <> MAtlas ->
+  stage_out a w = Some fs1 -> stage_key a w fs1 = Some (fs2, enc) ->
+  local_input a w m fs2 = Some (data, e, bar) ->
+  fst (run_io tb cs (a_cfg a) enc data e (w_writer w) bar) <> ROk ->
+  j_status (job tb cs a w) = Exit1.
+Proof. exact job_failure_reported. Qed.
+Print Assumptions C08_job_failure_reported.
+
+(* a gzip stream that is cut or corrupt makes the reader end with an error: status 1 *)
+Theorem C08_job_read_error : forall tb cs a w m fs1 fs2 enc data bar,
+  decide (flags_of a w) = CAccept m -> m <> MAtlas ->
+  stage_out a w = Some fs1 -> stage_key a w fs1 = Some (fs2, enc) ->
+  local_input a w m fs2 = Some (data, RErr, bar) ->
+  j_status (job tb cs a w) = Exit1.
+Proof. exact job_read_error_reported. Qed.
+Print Assumptions C08_job_read_error.
+
+(* an input that cannot be opened: status 1, nothing on standard output *)
+Theorem C08_job_input_unavailable : forall tb cs a w m fs1 fs2 enc,
+  decide (flags_of a w) = CAccept m -> m <> MAtlas ->
+  stage_out a w = Some fs1 -> stage_key a w fs1 = Some (fs2, enc) ->
+  local_input a w m fs2 = None ->
+  j_status (job tb cs a w) = Exit1 /\ j_stdout (job tb cs a w) = [].
+Proof. exact job_input_unavailable. Qed.
+Print Assumptions C08_job_input_unavailable.
